@@ -30,6 +30,10 @@ def variants():
             if meta.get("obsolete"):
                 continue  # no longer breaks the property on the repaired tree; see meta.json
             also = meta.get("also_checked_by", [])
+            if meta.get("checked_by"):  # decided by other properties' checks than the one it was written against
+                for a in meta["checked_by"]:
+                    out.append((a, "seeded-" + d, p))
+                continue
         out.append((pid, "seeded-" + d, p))
         for a in also:
             out.append((a, "seeded-" + d, p))
